@@ -1800,7 +1800,9 @@ func ExecGroupBy(query *Query, current []any) ([]any, error) {
 		current := make(Map)
 		for innerKey, innerValue := range *key {
 			// a qualified or nested grouping column (a.b) is read through the path a -> b
-			SetPath(current, innerKey, innerValue)
+			if err := SetPath(current, innerKey, innerValue); err != nil {
+				return nil, err
+			}
 		}
 		current["*"] = item
 		rs, err := ExecHaving(query, current)
@@ -1817,12 +1819,27 @@ func ExecGroupBy(query *Query, current []any) ([]any, error) {
 
 // Stores a value where the readers of a column name look for it: the name a.b
 // is read through the path a -> b, a quoted name is a single key
-func SetPath(row Map, name string, value any) {
-	if strings.ContainsAny(name, "'\"`") {
-		row[name] = value
-		return
+func SetPath(row Map, name string, value any) error {
+	// the keys the readers of this name walk, as the selector parser sees them:
+	// a quoted part is one key, without its quotes
+	selectors, err := ParseSelector(name)
+	if err != nil {
+		return err
 	}
-	parts := strings.Split(name, ".")
+	parts := make([]string, 0, len(selectors))
+	for _, selector := range selectors {
+		key, ok := selector.(KeySelector)
+		if !ok {
+			// an index or a reshaping step cannot be written back: kept under its text
+			row[name] = value
+			return nil
+		}
+		parts = append(parts, string(key))
+	}
+	if len(parts) == 0 {
+		row[name] = value
+		return nil
+	}
 	node := row
 	for _, part := range parts[:len(parts)-1] {
 		// the path is made of maps of its own: a map that is already there may
@@ -1837,6 +1854,7 @@ func SetPath(row Map, name string, value any) {
 		node = next
 	}
 	node[parts[len(parts)-1]] = value
+	return nil
 }
 
 func ExecHaving(query *Query, current Map, opts ...ExprOption) (bool, error) {
